@@ -56,6 +56,8 @@ fn main() {
         "tdd" => drv_mv::tdd(&args),
         #[cfg(feature = "idx")]
         "mtbdd" => drv_mv::mtbdd(&args),
+        #[cfg(feature = "idx")]
+        "mtconc" => drv_mv::mtconc(&args),
         "pick" => match kind.as_str() {
             "bdd" => drv_pick::pick::<BDDFunction>(&args),
             "bcdd" => drv_pick::pick::<BCDDFunction>(&args),
@@ -80,10 +82,17 @@ fn main() {
             "zbdd" => drv_oom::oom::<ZBDDFunction>(&args),
             k => panic!("harness: unknown kind {k}"),
         },
+        "gcthread" => drv_oom::gcthread(&args),
         "oomabort" => match kind.as_str() {
             "bdd" => drv_oom::oomabort::<BDDFunction>(&args),
             "bcdd" => drv_oom::oomabort::<BCDDFunction>(&args),
             "zbdd" => drv_oom::oomabort::<ZBDDFunction>(&args),
+            k => panic!("harness: unknown kind {k}"),
+        },
+        "capprobe" => match kind.as_str() {
+            "bdd" => drv_oom::capprobe::<BDDFunction>(&args),
+            "bcdd" => drv_oom::capprobe::<BCDDFunction>(&args),
+            "zbdd" => drv_oom::capprobe::<ZBDDFunction>(&args),
             k => panic!("harness: unknown kind {k}"),
         },
         "names" => match kind.as_str() {
